@@ -113,6 +113,14 @@ def an_C05(mod, name, paths, fq):
                         r = solve.prove(s.pc, wr[0] == tid, 5000)
                         if r.status != 'proved':
                             bad = 'per-thread slot %s written under a key that is not the thread\'s own id' % attr
+                    elif wr and wr[0] == 'pop':
+                        # removing an entry is a write under that key
+                        kpop = wr[1] if len(wr) > 1 else None
+                        r = solve.prove(s.pc, kpop == tid, 5000) if kpop is not None and not isinstance(kpop, str) else None
+                        if r is None or r.status != 'proved':
+                            bad = 'an entry of the per-thread slot %s is removed under a key that is not the thread\'s own id' % attr
+                    elif wr and wr[0] == 'clear':
+                        bad = 'the per-thread slot %s is cleared (entries of other threads are removed)' % attr
         terms = list(s.branch_pc)
         if s.text is not None:
             for conds, toks in textform.flatten(s.text):
